@@ -257,7 +257,7 @@ func checkMinMax(c listCase) *harness.Failure {
 
 func TestCheckRandom(t *testing.T) {
 	pairs := harness.NewSub("random-day-pairs", "random pairs of days over years 1..9999, biased to year ends and leap days: Years/IsBefore/IsAfter agree with civil-day order; non-trivial = the two days differ")
-	pairs.Rapid(t, harness.Share(harness.Pick(200000, 10000000)), 1, func(rt *rapid.T) {
+	pairs.Rapid(t, harness.Share(harness.Pick(200000, 60000000)), 1, func(rt *rapid.T) {
 		p := pairCase{A: genDay(rt, "a"), B: genDay(rt, "b")}
 		cls := "different-year"
 		if p.A[0] == p.B[0] {
@@ -273,7 +273,7 @@ func TestCheckRandom(t *testing.T) {
 		}
 	})
 	lists := harness.NewSub("min-max-lists", "random lists of 1..8 day dates as DateNodes: Minimum/Maximum return the first node with the calendar-smallest/largest day; non-trivial = at least 2 distinct days")
-	lists.Rapid(t, harness.Share(harness.Pick(20000, 1000000)), 2, func(rt *rapid.T) {
+	lists.Rapid(t, harness.Share(harness.Pick(20000, 5000000)), 2, func(rt *rapid.T) {
 		n := rapid.IntRange(1, 8).Draw(rt, "n")
 		c := listCase{}
 		for i := 0; i < n; i++ {
